@@ -10,6 +10,12 @@ NOTE = ("Trusted: Lean 4.33 kernel; axioms propext/Classical.choice/Quot.sound o
         "-O2 build (thorough: also -O0 and -march=native, all alignments). Constants and README tables are regenerated from "
         "/repo on every run (tools/gen.py). Clauses not yet carried by a theorem are listed in the evidence under not_yet_proved.")
 CLAIMED = {
+ "C14": ("Theorems, for EVERY byte list: the bounded tagged reader, both dictionary decoders, both Elias array decoders, the "
+         "bitmap deserialiser and the RLE run counter never load at or beyond the declared size (memory-safety semantics: such "
+         "a load is the distinguished outcome `fault`, proved unreachable), every malloc request is bounded by a constant or "
+         "8x the input size, outputs never exceed the capacity, a tagged varint is reported as 0 exactly when cut short. "
+         "The models follow the C pointer arithmetic and are compared with the code on hostile inputs under ASan + guard pages",
+         "Lean 4 proof (memory-safety of the model for all inputs) + differential correspondence on truncated/corrupt/hostile inputs"),
  "C06": ("Theorems: the first byte names the encoding; the selector (for every outcome of its float comparisons) picks "
          "BITMAP only for sorted, all-unique, < 65536, < 10000-element input; the DELTA, FOR and TAGGED arms are lossless "
          "for arrays of every length (adaptive_roundtrip_partial). All six arms, the analysis and the selector are "
